@@ -198,6 +198,28 @@ pub fn directed(profile: &str) -> Vec<(String, Vec<(String, Value)>)> {
                     }
                 }
             }
+            // the same for byte strings that are not UTF-8 or cut a multi-byte character
+            let bys: Vec<Vec<u8>> = vec![vec![], vec![0xff], vec![0xfe], vec![0xff, 0xfe], vec![0xfe, 0xff], vec![0xe2, 0x82, 0xac], vec![0x82], vec![0xe2, 0x82], vec![0x82, 0xac], vec![0xac, 0xe2],
+                                         "héllo".as_bytes().to_vec(), vec![0xa9, b'l'], vec![b'h', 0xc3], vec![0xc3, 0xa9], vec![b'a', 0xff, b'b'], vec![0xff, b'b'], vec![0, 0], vec![0]];
+            for a in &bys {
+                for b in &bys {
+                    let vars = vec![("ya".to_string(), Value::Bytes(Arc::new(a.clone()))), ("yb".to_string(), Value::Bytes(Arc::new(b.clone())))];
+                    out.push(("ya.contains(yb)".to_string(), vars.clone()));
+                    out.push(("contains(ya, yb)".to_string(), vars));
+                }
+            }
+            // ordering and equality across int / uint / double around every small integer: the relations, min and max
+            let ints: Vec<Value> = (-3..=3).map(Value::Int).chain((0..=3).map(Value::UInt)).collect();
+            let dbls: Vec<f64> = vec![-3.25, -3.0, -2.5, -1.5, -1.0, -0.5, -0.25, -0.0, 0.0, 0.25, 0.5, 1.0, 1.5, 2.5, 3.0, 3.25];
+            for i in &ints {
+                for d in &dbls {
+                    let vars = vec![("i".to_string(), i.clone()), ("d".to_string(), Value::Float(*d))];
+                    for src in ["i < d", "i <= d", "i > d", "i >= d", "i == d", "i != d", "d < i", "d <= i", "d > i", "d >= i", "d == i", "max(i, d)", "min(i, d)", "max([d, i])", "min([d, i])",
+                                "i in [d]", "d in [i]", "[i].contains(d)", "[d, i].filter(e, e >= d)", "[i, d].filter(e, e < i)"] {
+                        out.push((src.to_string(), vars.clone()));
+                    }
+                }
+            }
             // map literals: key_1, value_1, key_2, value_2 ... in order, the first error aborts
             for src in ["{1: 1 / 0, 9223372036854775807 + 1: 2}", "{t(1, 1): t(2, 2), t(3, 3): t(4, 4)}", "{1: nope, 5 % 0: 2}", "{1 / 0: nope}", "{t(1, 'a'): 1 / 0, fail(2): 3}",
                         "{[1]: 1 / 0}", "{1: 2, [1]: 1 / 0}", "{1: t(1, 2), 1.5: nope}", "[t(1, 1), 1 / 0, nope]", "[nope, 1 / 0]", "{1: 2, 1: 1 / 0}"] {
@@ -205,6 +227,29 @@ pub fn directed(profile: &str) -> Vec<(String, Vec<(String, Value)>)> {
             }
         }
         "c10" => {
+            // nested macros whose inner bodies mention the enclosing macros' variables (2 and 3 deep), with and without
+            // context variables of the same names
+            for ctxvars in [vec![], vec![("x".to_string(), Value::Int(100))], vec![("y".to_string(), Value::Int(200)), ("z".to_string(), Value::Int(300))],
+                            vec![("x".to_string(), Value::Int(100)), ("y".to_string(), Value::Int(200)), ("z".to_string(), Value::Int(300))]] {
+                for (m1, m2) in [("map", "map"), ("map", "filter"), ("filter", "exists"), ("all", "exists"), ("exists", "all"), ("map", "exists_one"), ("exists_one", "map")] {
+                    let inner_bool = |m: &str| m != "map";
+                    for inner in ["x + y", "y + x", "x", "y < x", "x + y > 11", "t(1, x) + t(2, y)"] {
+                        let inner_is_bool = inner.contains('<') || inner.contains('>');
+                        if inner_bool(m2) != inner_is_bool {
+                            continue;
+                        }
+                        let body1 = format!("[10, 20].{}(y, {})", m2, inner);
+                        let body1 = if inner_bool(m1) { if m2 == "map" || m2 == "filter" { format!("size({}) > 0", body1) } else { body1 } } else { body1 };
+                        out.push((format!("[1, 2].{}(x, {})", m1, body1), ctxvars.clone()));
+                    }
+                }
+                for src in ["[1, 2].map(x, [10, 20].map(y, [100].map(z, x + y + z)))", "[1, 2].map(x, [10, 20].map(y, [100].map(z, z + x)))", "[1, 2].map(x, [10].map(y, y).map(y, x + y))",
+                            "[1, 2].map(x, [x, x + 1].map(y, y * x))", "[[1, 2], [3]].map(x, x.map(y, size(x) + y))", "[1, 2].map(x, [10, 20].filter(y, y > x * 10).map(z, z + x))",
+                            "[1, 2].all(x, [1, 2].exists(y, y == x))", "[1, 2].exists(x, [3].all(y, y > x) && [0].all(z, z < x))", "[1, 2].map(x, [3].map(x, x)[0] + x)",
+                            "[1, 2].map(x, {x: [x].map(y, y + x)})", "[2].map(x, [3].map(y, [4].map(x, x + y)))", "[1, 2].map(x, x) + [3].map(y, y)", "[1].map(x, y)", "[1].map(x, [2].map(y, z))"] {
+                    out.push((src.to_string(), ctxvars.clone()));
+                }
+            }
             // chains of macros sharing the variable name: the inner macro completes before the outer one starts
             let preds = ["t(1, x) > 0", "10 / x > 0", "t(1, x) != 2", "x > 0 && t(1, x) > 0", "tb(1)", "x != nope"];
             let bodies = ["t(2, x)", "x + nope", "10 / x", "t(2, x) * 2", "x"];
@@ -223,6 +268,13 @@ pub fn directed(profile: &str) -> Vec<(String, Vec<(String, Value)>)> {
                     out.push((format!("{}.filter(y, {}).map(x, t(2, x))", l, p.replace('x', "y")), vars.clone()));
                     out.push((format!("{}.map(x, {}, t(2, x)).map(x, t(3, x))", l, p), vars.clone()));
                     out.push((format!("[{}, [5]].map(y, y.filter(x, {}).map(x, t(2, x)))", l, p), vars.clone()));
+                }
+                // an error on a reached element aborts the macro; elements after it are not visited (observed through t)
+                for body in ["10 / t(1, x) > 2", "t(1, x) > 0 && 10 / x > 0", "10 / x == 10", "t(1, x) == 1", "t(1, x) != nope", "fail(t(1, x)) > 0", "t(1, x) > 1 || 10 / x > 0", "[1][t(1, x)] == 1"] {
+                    for m in ["all", "exists", "exists_one"] {
+                        out.push((format!("{}.{}(x, {})", l, m, body), vars.clone()));
+                        out.push((format!("[{}, [1]].{}(y, y.{}(x, {}))", l, m, m, body), vars.clone()));
+                    }
                 }
                 for b in bodies.iter() {
                     out.push((format!("{}.map(x, {}).map(x, t(3, x))", l, b), vars.clone()));
@@ -553,6 +605,18 @@ pub fn c20_table(seed: u64, thorough: bool, out: &mut dyn Write) -> Stats {
             emit(format!("{}.{}(ks, ks)", x, f), None, &[], &mut st, out);
             for y in &names {
                 emit(format!("{}.{}({})", x, f, y), Some(format!("{}({}, {})", f, x, y)), &[], &mut st, out);
+            }
+        }
+    }
+    // literal receivers and literal arguments, every receiver x argument in both styles, twice over (within one process:
+    // whatever a built-in remembers between calls must not change what a later call returns)
+    for _round in 0..2 {
+        for f in ["matches", "contains", "startsWith", "endsWith"] {
+            for x in ["'abc'", "'bcd'", "'k1'", "'^a'", "'c$'", "''"] {
+                for y in ["'^a'", "'^b'", "'c$'", "'d$'", "'b'", "'k|z'", "'abc'", "'[a-c]+'", "''", "'^k1$'"] {
+                    emit(format!("{}({}, {})", f, x, y), Some(format!("{}.{}({})", x, f, y)), &[], &mut st, out);
+                    emit(format!("{}.{}({})", y, f, x), Some(format!("{}({}, {})", f, y, x)), &[], &mut st, out);
+                }
             }
         }
     }
